@@ -67,6 +67,22 @@ Theorem C13_ids_never_collide : forall ops name1 name2 id,
   bget name1 (lane_ids r) = Some id -> bget name2 (lane_ids r) = Some id -> name1 = name2.
 Proof. exact ids_never_collide. Qed.
 
+(* the same when the process is killed between any two writes, any number of times (a new name writes the
+   counter, then its own entry, then the operation's entry; after a kill the database is opened again): the
+   allocator's invariant holds again after every reopening, a stored identifier is never reassigned, and two
+   names never share one *)
+Theorem C13_ids_invariant_with_kills : forall hs, ids_inv (hrun_state rocks0 hs).
+Proof. exact ids_inv_reachable_with_kills. Qed.
+
+Theorem C13_id_survives_a_kill : forall r k o name id,
+  bget name (lane_ids r) = Some id -> bget name (lane_ids (rocks_kill r k o)) = Some id.
+Proof. exact id_survives_a_kill. Qed.
+
+Theorem C13_ids_never_collide_with_kills : forall hs name1 name2 id,
+  let r := hrun_state rocks0 hs in
+  bget name1 (lane_ids r) = Some id -> bget name2 (lane_ids r) = Some id -> name1 = name2.
+Proof. exact ids_never_collide_with_kills. Qed.
+
 (* the store NAME of an item is "<agent>/<item>": not injective in (agent, item) - known finding *)
 Theorem C13_F1_name_not_injective_refuted :
   exists a n a' n', (a, n) <> (a', n') /\ lane_name a n = lane_name a' n'.
